@@ -97,7 +97,7 @@ func (e routeEngine) Corpus() []Case {
 				q(g, "/u-12.html"), q(g, "/u-.html"), q(g, "/n/x/12/detail"), q(g, "/o/1"), q(g, "/o/1/2"), q(g, "/o/1/2/3"), q(g, "/g/12/a/b/c"), q(g, "/g/012/a"), q(g, "/g/1/")}},
 			// F3: white-space only paths; request method strings of all kinds
 			{Ops: []string{"new 4 0 -", regOp(1, nil, "/", false), q(g, "  "), q(g, ""), q("", "/"), q("get", "/"), q("GE", "/"), sv(" ", "\t")}},
-			}, raCorpus("route")...)
+		}, raCorpus("route")...)
 	case "rcache":
 		return append([]Case{
 			// F7: first-segment routes must be cached under method+path
@@ -123,7 +123,7 @@ func (e routeEngine) Corpus() []Case {
 			{Ops: []string{"new 0 0 -", "wopt 8 - 0", "wopt 1 1 3", regOp(1, nil, "/blog/{id}", false), q(g, "/blog/7"), q(g, "/blog/8"), "ckeys", q(g, "/blog/8/"), sv(g, "/blog/7"), "ckeys"}},
 			// capacity first and the caching switch later; the capacity raised by a later step
 			{Ops: []string{"new 4 0 -", "wopt 0 1 0", q(g, "/x"), "wopt 8 - 0", "ckeys", "wopt 10 3 5", regOp(1, nil, "/{a}", false), regOp(2, []string{p}, "/*", false), q(g, "/x"), q(g, "/y"), q(g, "/z"), q(g, "/w"), q(p, "/x"), "ckeys"}},
-			}, raCorpus("rcache")...)
+		}, raCorpus("rcache")...)
 	case "url":
 		kv := func(pairs ...string) string {
 			if len(pairs) == 0 {
@@ -593,11 +593,14 @@ type routeImpl struct {
 	rbMask int
 	rbIcpt string
 	// the shared BuildRequestURL object of buildq style 3 (created by the first such call after 'new')
-	rbShared *rux.BuildRequestURL
-	raGvars  [][2]string // `gvar` ops of the case so far: in force (withGlobalVars) during every registration that follows
-	raNil    string      // nil-ness of the params map the last lookup handed out / the last handler saw ("" = none)
-	raEnc    bool        // the router uses the escaped request path (mask bit 128)
-	raRegs   map[int][2]*rux.Route // the *Route values the `reg` ops registered: main router, twin
+	rbShared   *rux.BuildRequestURL
+	raGvars    [][2]string // `gvar` ops of the case so far: in force (withGlobalVars) during every registration that follows
+	raNil      string      // nil-ness of the params map the last lookup handed out / the last handler saw ("" = none)
+	raEnc      bool        // the router uses the escaped request path (mask bit 128)
+	heldAlm    []string    // an allowed-methods list an earlier QuickMatch returned (the slice itself) and what it read then
+	heldAlmStr string
+	almOracle  []string
+	raRegs     map[int][2]*rux.Route // the *Route values the `reg` ops registered: main router, twin
 }
 
 func fmtParams(ps rux.Params) string {
@@ -695,6 +698,14 @@ func newRouter(mask, cap int, icpt string, caching bool) *rux.Router {
 
 func (im *routeImpl) quick(r *rux.Router, m, p string) string {
 	route, ps, alm := r.QuickMatch(m, p)
+	// what an earlier caller got back belongs to that caller: a later lookup must not change it
+	if im.heldAlm != nil && strings.Join(im.heldAlm, ",") != im.heldAlmStr {
+		im.almOracle = append(im.almOracle, fmt.Sprintf("C06 allowed set: the list %q returned by an earlier lookup reads %q after the lookup %s %q", im.heldAlmStr, strings.Join(im.heldAlm, ","), m, p))
+		im.heldAlm = nil
+	}
+	if len(alm) > 0 && im.heldAlm == nil {
+		im.heldAlm, im.heldAlmStr = alm, strings.Join(alm, ",")
+	}
 	if route != nil {
 		im.raNil = raNilness(ps)
 		for id, p := range im.byID {
@@ -748,6 +759,7 @@ func (e routeEngine) Run(ops []string) (ans []string, oracle []string) {
 			im.rbMask, im.rbIcpt, im.rbShared = mask, icpt, nil
 			a = guarded(func() string {
 				im.r = newRouter(mask, cap, icpt, im.caching)
+				im.heldAlm = nil
 				im.twin = nil
 				if im.caching {
 					im.twin = newRouter(mask, cap, icpt, false)
@@ -1040,9 +1052,9 @@ func (e routeEngine) Run(ops []string) (ans []string, oracle []string) {
 		}
 		ans = append(ans, a)
 	}
+	oracle = append(oracle, im.almOracle...)
 	return
 }
-
 
 // genURL: named routes without optional parts whose first literal segment is unique to the route (so the
 // named route is the only candidate for its built paths), values drawn from the variable's regex language.
